@@ -95,7 +95,45 @@ Definition run_mismatch (m : option (fs * calllog)) (r : orun) (cands : list pat
       || negb (forallb (fun x => existsb (path_eqb (of_path x)) cands) (or_files r))
   end.
 
+(* the theorems' hypotheses on the loaded data (go/types, Go maps), checked on every case *)
+Fixpoint nodup_b (l : list bytes) : bool :=
+  match l with [] => true | x :: r => negb (mem x r) && nodup_b r end.
+Fixpoint nodup_N (l : list N) : bool :=
+  match l with [] => true | x :: r => negb (existsb (N.eqb x) r) && nodup_N r end.
+
+Definition wf_pkg_b (p : pkg) : bool :=
+  nodup_b (map td_name (filter td_pkgscope (pk_defs p)))
+  && forallb (fun ft => nodup_b (keys (snd ft))) (pk_filetags p)
+  && forallb (fun d => nodup_b (keys (td_tags d))) (pk_defs p)
+  && nodup_N (map m_pos (pk_meths p)).
+
+Definition wf_world_b (w : world) : bool :=
+  nodup_b (map pk_path (w_pkgs w)) && nodup_b (map pk_dir (w_pkgs w)) && forallb wf_pkg_b (w_pkgs w).
+
+Definition tags_eqb := list_eqb (fun x y : bytes * bytes => bytes_eqb (fst x) (fst y) && bytes_eqb (snd x) (snd y)).
+Definition kind_eqb (a b : kind) : bool :=
+  match a, b with KNamed, KNamed | KAlias, KAlias | KOther, KOther => true | _, _ => false end.
+Definition tdef_eqb (a b : tdef) : bool :=
+  bytes_eqb (td_name a) (td_name b) && N.eqb (td_uid a) (td_uid b) && kind_eqb (td_kind a) (td_kind b)
+  && Bool.eqb (td_pkgscope a) (td_pkgscope b) && tags_eqb (td_tags a) (td_tags b).
+Definition meth_eqb (a b : meth) : bool :=
+  N.eqb (m_recv a) (m_recv b) && bytes_eqb (m_name a) (m_name b) && N.eqb (m_pos a) (m_pos b).
+
+(* [src_eq]: the second load sees the same sources (generated files contribute no type name, method or tag) *)
+Definition src_eqb (p q : pkg) : bool :=
+  bytes_eqb (pk_path p) (pk_path q) && bytes_eqb (pk_name p) (pk_name q) && bytes_eqb (pk_dir p) (pk_dir q)
+  && list_eqb (fun x y => bytes_eqb (fst x) (fst y) && tags_eqb (snd x) (snd y)) (pk_filetags p) (pk_filetags q)
+  && list_eqb tdef_eqb (pk_defs p) (pk_defs q) && list_eqb meth_eqb (pk_meths p) (pk_meths q).
+
+Definition assumptions_ok (c : case) : bool :=
+  wf_world_b (c_world c) && nodup_b (keys (a_globals (c_args c)))
+  && match c_world2 c with
+     | Some w2 => wf_world_b w2 && list_eqb src_eqb (w_pkgs (c_world c)) (w_pkgs w2)
+     | None => true
+     end.
+
 Definition mismatch (c : case) : bool :=
+  negb (assumptions_ok c) ||
   let gs := gens_of c in
   let f0 := fs_of (c_fs0 c) in
   let m1 := model_run (c_args c) (c_entry c) (c_world c) gs f0 in
